@@ -151,7 +151,7 @@ RESOLVE_SHAPES_QUICK = ["ATnL", "ATnnL", "ATnnnL", "ATn?L", "ATnn?L", "ATn=L", "
 def resolve_jobs(prop, tier):
     jobs = []
     # the 2-bit match table for tables of hundreds of commands (kernel level)
-    jobs.append(Job("k_lanes.n200", "k_lanes.c", {"NCMDS": 200}, unwind=60, timeout=900, samples=100000,
+    jobs.append(Job("k_lanes.n200", "k_lanes.c", {"NCMDS": 200}, unwind=60, timeout=1200, samples=100000, solver="cadical",
                     required_witness=["end-of-scenario", "high-index-full-match", "indices-in-different-groups"]))
     if tier == "thorough":
         jobs.append(Job("k_lanes.n600", "k_lanes.c", {"NCMDS": 600}, unwind=160, timeout=1800, samples=100000, solver="kissat",
@@ -291,6 +291,9 @@ def c07(tier):
     # 32-bit decimal over the full range (multiply-by-ten kernels: Kissat)
     jobs.append(rt_job([0], [4], 16, solver="kissat", timeout=3000))
     jobs.append(rt_job([1], [4], 16, solver="kissat", timeout=3000))
+    # the transport leg of the round trip: a WRITE line's argument bytes (anything but LF, '?' and '=' included) reach the write path unchanged
+    for n in ((2, 5) if tier == "quick" else (1, 2, 3, 5, 6)):
+        jobs.append(shape_job("C07", "AT+k=" + "x" * n + "L", harness="r_args.c", cap=(12, 17), name="shared.w%d" % n, samples=200000))
     if tier == "thorough":
         for a in range(5):
             for b in range(5):
@@ -449,6 +452,12 @@ def c08(tier):
     # second clause: READ / WRITE refused exactly when nothing is readable / writable and there is no handler
     jobs.append(Job("k_access.nv3", "k_access.c", {"NV": 3}, unwind=34, timeout=300, samples=100000,
                     required_witness=["end-of-scenario", "read-refused", "writable-in-the-middle"]))
+    # non-disclosure at kernel level: the READ formatter run twice, only the stored bytes of a write-only variable differ (all five types,
+    # every capacity 6..32 - also the ones that are too small)
+    # (a read-write uint8 precedes it: a command offering nothing readable is refused as a whole - k_access)
+    for t0 in (0, 1, 2, 3, 4):
+        jobs.append(Job("k_wo.t%d" % t0, "k_wo.c", {"T0": t0, "LEAD": 1, "CAP": 32}, unwind=36, timeout=900, samples=100000,
+                        solver="cadical", required_witness=["end-of-scenario", "answer-produced", "answer-does-not-fit", "contents-differ"]))
     return with_prop("C08", jobs)
 
 
@@ -529,6 +538,8 @@ def c15(tier):
         else:
             pairs = [(0, u) for u in USTATES] + [(8, 0), (19, 0), (17, 0), (4, 0)]
         jobs += step_jobs("C15", tier, calls=2, pairs=pairs, ringcaps=(rc,))
+    for j in jobs:
+        j.defines["CB_TRIGGER"] = 1      # the application may trigger an event from inside io->read or a handler of the first call
     for shape, lines in (("ATnL", 1), ("ATn?L", 1), ("ATn=aL", 1), ("ATLATL", 2), ("gxL", 1)):
         jobs.append(shape_job("C15", shape, lines=lines))
     # events only, black box: two triggers + a write refusal end in OK with nothing left behind
@@ -607,8 +618,19 @@ def c17(tier):
     return with_prop("C17", jobs + sj)
 
 
+def c03(tier):
+    jobs = step_jobs("C03", tier, checks=True)
+    # the match table of a big command table in a working buffer of the minimal legal size (built-in checks + canary bytes behind it)
+    jobs.append(Job("k_lanes.n200.min", "k_lanes.c", {"NCMDS": 200}, unwind=60, checks=True, timeout=1200, samples=100000, solver="cadical",
+                    required_witness=["end-of-scenario", "high-index-full-match"]))
+    if tier != "quick":
+        jobs.append(Job("k_lanes.n24.min", "k_lanes.c", {"NCMDS": 24}, unwind=30, checks=True, timeout=900, samples=100000, solver="cadical",
+                        required_witness=["end-of-scenario"]))
+    return with_prop("C03", jobs)
+
+
 REGISTRY = {"C04": c04, "C01": c01, "C02": c02, "C09": c09, "C06": c06, "C10": c10, "C05": c05, "C07": c07,
-            "C03": lambda tier: step_jobs("C03", tier, checks=True),
+            "C03": lambda tier: c03(tier),
             "C12": c12, "C20": c20, "C08": c08,
             "C19": lambda tier: c19(tier), "C15": lambda tier: c15(tier), "C18": lambda tier: c18(tier), "C11": lambda tier: c11(tier),
             "C13": lambda tier: c13(tier), "C14": lambda tier: c14(tier), "C16": lambda tier: c16(tier), "C17": lambda tier: c17(tier),
